@@ -20,3 +20,5 @@ func verifThorough() bool
 func verifConfig(key string, val int)
 func verifIdealHash()
 func verifNote(label string, v any)
+
+func verifSymQtyU64(name string) uint64 { panic("verif intrinsic") }
